@@ -994,6 +994,71 @@ theorem C08_parent_idle_variant_witness :
 
 example : exForest.recoveryFilesR (fun n => n != 0) 3 [0, 1, 2, 3, 4, 5] [5, 1] = [] := by decide +kernel
 
+/-! ### restoring value links (round 4)
+
+The stored state of a macro already holds every input value at every depth; putting the macro-input → child-input
+links back must not move any of them. -/
+
+/-- **restoring a link never writes a value**: with the private assignment the restored graph holds, on every
+channel at every depth, exactly the stored value — whatever links there are, in whatever order they are forged,
+and whether or not the two ends of a link agree -/
+theorem C08_restore_links_writes_nothing {α} (fuel : Nat) (ps : List (Nat × Nat)) (r : Recv) (v : Nat → α) :
+    (restoreLinks false fuel ps r v).2 = v := by
+  induction ps generalizing r v with
+  | nil => rfl
+  | cons p rest ih => obtain ⟨s, d⟩ := p; simp only [restoreLinks]; exact ih _ _
+
+/-- both ways of restoring forge the same links -/
+theorem C08_restore_links_same_links {α} (fuel : Nat) (ps : List (Nat × Nat)) (r : Recv) (v w : Nat → α) (b : Bool) :
+    (restoreLinks b fuel ps r v).1 = (restoreLinks false fuel ps r w).1 := by
+  induction ps generalizing r v w with
+  | nil => rfl
+  | cons p rest ih => obtain ⟨s, d⟩ := p; simp only [restoreLinks]; exact ih _ _ _
+
+theorem assign_agree {α} (r : Recv) (v : Nat → α) (h : Agree r v) (fuel c : Nat) :
+    assign r fuel c (v c) v = v := by
+  have hu : ∀ c, updF v c (v c) = v := by
+    intro c; funext x; by_cases hx : x = c <;> simp [updF, hx]
+  induction fuel generalizing c with
+  | zero => simp [assign, hu]
+  | succ n ih =>
+    simp only [assign]
+    cases hr : r c with
+    | none => simp [hu]
+    | some d => simp only [hu]; rw [h c d hr]; exact ih d
+
+/-- the setter variant is harmless only where nobody ever assigned a linked child input directly: if all links
+(already forged and to be forged) connect equal values, it leaves the values alone as well -/
+theorem C08_restore_links_setter_partial {α} (fuel : Nat) (ps : List (Nat × Nat)) (r : Recv) (v : Nat → α)
+    (hr : Agree r v) (hp : ∀ p ∈ ps, v p.1 = v p.2) :
+    (restoreLinks true fuel ps r v).2 = v := by
+  induction ps generalizing r with
+  | nil => rfl
+  | cons p rest ih =>
+    obtain ⟨s, d⟩ := p
+    have hsd : v s = v d := hp (s, d) (by simp)
+    have hr' : Agree (fun c => if c = s then some d else r c) v := by
+      intro c e hce
+      by_cases hc : c = s
+      · simp [hc] at hce; subst hc; subst hce; exact hsd
+      · simp [hc] at hce; exact hr c e hce
+    simp only [restoreLinks, if_true]
+    rw [hsd, assign_agree _ v hr' fuel d]
+    exact ih _ hr' (fun p hp' => hp p (by simp [hp']))
+
+/-- **witness for the setter variant** (seeded change C08-12): channels 0 (outer macro input) → 1 (inner macro
+input) → 2 (input of a child two macros down); the arguments stay at 1, the child input was set directly to 5.
+The inner macro's link is forged first (its own `__setstate__`), then the outer one: the value 1 is pushed onto the
+inner macro's input and cascades onto the child — the restored graph is not the stored one.  The private assignment
+leaves it as stored. -/
+theorem C08_restore_links_setter_witness :
+    let v : Nat → Nat := fun c => if c = 2 then 5 else 1
+    let ps := [(1, 2), (0, 1)]
+    ((restoreLinks true 3 ps (fun _ => none) v).2 2 = 1 ∧ v 2 = 5) ∧
+    (restoreLinks false 3 ps (fun _ => none) v).2 2 = 5 ∧
+    -- one level is enough
+    (restoreLinks true 3 [(1, 2)] (fun _ => none) v).2 2 = 1 := by decide
+
 end PwVerif.C08
 
 #print axioms PwVerif.C08.C08_resume_equations
@@ -1039,5 +1104,9 @@ end PwVerif.C08
 #print axioms PwVerif.C08.C08_recovery_only_at_roots
 #print axioms PwVerif.C08.C08_idle_parent_no_file
 #print axioms PwVerif.C08.C08_parent_idle_variant_witness
+#print axioms PwVerif.C08.C08_restore_links_writes_nothing
+#print axioms PwVerif.C08.C08_restore_links_same_links
+#print axioms PwVerif.C08.C08_restore_links_setter_partial
+#print axioms PwVerif.C08.C08_restore_links_setter_witness
 #print axioms PwVerif.C08.C08_recovery_root_only
 #print axioms PwVerif.C08.C08_checkpoint_at_root
